@@ -41,8 +41,8 @@ def work_ops(hist):
     return ops
 
 
-def render(cid, hist, stride=1, models=("kill", "power"), schema="pk_idx_b", max_snaps=4000):
-    return {"id": cid, "setup": [{"k": "exec", "sql": s} for s in R.SCHEMAS[schema]], "after_reopen": WAL_FULL,
+def render(cid, hist, stride=1, models=("kill", "power"), schema="pk_idx_b", max_snaps=4000, both_paths_every=0):
+    return {"both_paths_every": both_paths_every, "id": cid, "setup": [{"k": "exec", "sql": s} for s in R.SCHEMAS[schema]], "after_reopen": WAL_FULL,
             "work": work_ops(hist), "verify": [q for _, q in R.OBS], "models": list(models), "stride": stride, "max_snaps": max_snaps}
 
 
@@ -190,6 +190,18 @@ def judge_case(hist, out):
         probs = judge_snapshot(s, A, B, kind, False, t_extra, unit_open=(op >= 0 or intxn_after))
         if not probs:
             stats["consistent"] += 1
+        # C02: automatic recovery at open and the streaming path (degraded mode + PRAGMA recover_wal) must agree
+        if "streaming_res" in s:
+            stats["both_paths_compared"] = stats.get("both_paths_compared", 0) + 1
+            def views(open_, res):
+                if open_ != "ok":
+                    return ("open:" + open_[:60],)
+                off = 1 if len(res) == len(R.OBS) + 1 else 0      # the PRAGMA's own result comes first
+                return tuple(json.dumps(R.norm_rows(r)) if "rows" in r else ("err" if "err" in r else "panic") for r in res[off:])
+            va, vs = views(s["open"], s["res"]), views(s["streaming_open"], s["streaming_res"])
+            if va != vs:
+                probs = probs + [{"prop": "C02", "what": "recovery_paths_differ", "view": "open",
+                                  "detail": {"automatic": va[:3], "streaming": vs[:3]}}]
         for p in probs:
             verdicts.append(dict(p, model=s["model"], n=s["n"], event=s["event"], op_index=i, op_kind=kind, phase=phase, features=feats))
     return verdicts, stats
@@ -255,6 +267,12 @@ def signatures(verdicts, prop):
             for g in sorted({VIEW_GROUP[VIEW_CLASS.get(p["view"], p["view"])] for p in ps}):
                 out.append(("%s:acked_effect_missing:%s:%s" % (model, g, ph), [p for p in ps if VIEW_GROUP[VIEW_CLASS.get(p["view"], p["view"])] == g]))
         else:
+            if "recovery_paths_differ" in whats:
+                out.append(("%s:recovery_paths_differ:%s" % (model, ph), [p for p in ps if p["what"] == "recovery_paths_differ"]))
+                ps = [p for p in ps if p["what"] != "recovery_paths_differ"]
+                whats = sorted({p["what"] for p in ps})
+                if not ps:
+                    continue
             if any(w.startswith("reopen") or w.startswith("unreadable") for w in whats):
                 sig = "%s:%s:%s" % (model, "+".join(whats), ph)
             elif "views_disagree" in whats:
@@ -280,14 +298,14 @@ def evaluate(chk, prop, walks_quick=30, depth_quick=12, walks_thorough=300, dept
     vlib.build_harness(); chk.mark("build")
     hists, gs = workloads(chk, walks_thorough if thorough else walks_quick, depth_thorough if thorough else depth_quick)
     chk.mark("tlc_gen")
-    outs = run_cases(hists); chk.mark("crash_run")
-    tot = {"snapshots": 0, "consistent": 0, "abandoned_after_divergence": 0}
+    outs = run_cases(hists, both_paths_every=(1 if thorough else 3) if prop == "C02" else 0); chk.mark("crash_run")
+    tot = {"snapshots": 0, "consistent": 0, "abandoned_after_divergence": 0, "both_paths_compared": 0}
     sigs, events, phases = {}, {}, {}
     op_kinds = {}
     for i, h in enumerate(hists):
         verdicts, st = judge_case(h, outs[i])
         for k in tot:
-            tot[k] += st[k]
+            tot[k] += st.get(k, 0)
         for n, name, op, detail in outs[i]["events"]:
             events[name] = events.get(name, 0) + 1
         for stp in h:
@@ -313,7 +331,7 @@ def evaluate(chk, prop, walks_quick=30, depth_quick=12, walks_thorough=300, dept
     chk.cov = {"evaluations": tot["snapshots"], "distinct_nontrivial": tot["snapshots"],
                "rule": "one evaluation = one (crash point, crash model) snapshot reopened and judged; crash points are distinct hook events / statement boundaries of distinct TLC-generated workloads; every one is non-trivial (recovery runs on a database with a non-empty history)",
                "workloads": len(hists), "workload_steps_by_kind": op_kinds, "hook_events_by_kind": events,
-               "snapshots_consistent_with_a_prefix": tot["consistent"], "snapshots_abandoned": tot["abandoned_after_divergence"],
+               "snapshots_consistent_with_a_prefix": tot["consistent"], "snapshots_recovered_through_both_paths": tot["both_paths_compared"], "snapshots_abandoned": tot["abandoned_after_divergence"],
                "signatures": sigs, "exhaustive": False, "crash_models": ["kill", "power"], "protocol_trace_validation": proto,
                "samples": [describe(h) for h in hists[:3]]}
 
@@ -379,9 +397,9 @@ def replay_file(chk, path, prop):
     return chk.finish()
 
 
-def run_cases(hists, stride=1, models=("kill", "power"), jobs=None):
+def run_cases(hists, stride=1, models=("kill", "power"), jobs=None, both_paths_every=0):
     inp, outp = vlib.scratch() + "/crash_in.ndjson", vlib.scratch() + "/crash_out.ndjson"
-    vlib.write_ndjson(inp, [render(i, h, stride, models) for i, h in enumerate(hists)])
+    vlib.write_ndjson(inp, [render(i, h, stride, models, both_paths_every=both_paths_every) for i, h in enumerate(hists)])
     vlib.run_vh(["crash-run", "--in", inp, "--out", outp, "--jobs", jobs or vlib.NCPU], timeout=3000)
     return {r["id"]: r for r in vlib.read_ndjson(outp)}
 
